@@ -164,6 +164,11 @@ BLOCKS: list[tuple[str, str]] = [
     ("fence4-indented-inner-tilde", "qaa\n\n ~~~~~\n x\n    ~~~~~~\n y\n ~~~~~\n\nqab\n"),
     ("fence4-in-list-inner", "- qaa\n\n   ````\n   x\n      ````\n   y\n   ````\n- qab\n"),
     ("fence5-plain", "`````text\nx\n````\ny\n`````\n"),
+    ("loose-list-in-quote-in-item", "- qaa\n\n  > - qab\n  >\n  > - qac\n"),
+    ("loose-olist-in-quote-in-olist", "1. qaa\n\n   > 1. qab qad\n   >\n   > 2. qac\n"),
+    ("loose-list-in-quote-in-quote-item", "> - qaa\n>\n>   > - qab\n>   >\n>   > - qac\n"),
+    ("loose-list-in-item-in-quote", "> - qaa\n>\n>   - qab\n>\n>   - qac\n"),
+    ("loose-list-in-footnote-quote", "qaa[^1]\n\n[^1]: qab\n\n    > - qac\n    >\n    > - qad\n"),
     ("quote-heading", "> ## qaa qab\n>\n> qac qad qae\n"),
     ("quote-heading-last", "> qaa qab\n>\n> ## qac\n\nqad qae\n"),
     ("quote-heading-only", "> # qaa\n"),
